@@ -1,2 +1,285 @@
-/- Property theorems for C04 (placeholder until the proofs land). -/
-import Avt.Spec.C04
+/-
+  Avt.Props.C04 — property C04: printing, auto-wrap, insert mode and charsets put characters
+  where they belong.
+
+  All theorems are about the model (`Terminal.execute`), for every terminal satisfying the global
+  invariant `TInv` (C02), every size, every character / count — no bounds.  The specification
+  (`printSpec`, `repSpec`, `gfxRef`) lives in Avt/Spec/C04.lean and is the very definition the
+  oracle evaluates on the implementation's states.
+-/
+import Avt.Lemmas.C04Term
+
+namespace Avt.Props.C04
+open Avt Avt.Spec Avt.Spec.C04 Avt.C04L
+
+/-! ### Character sets -/
+
+/-- **C04 (charsets).**  The DEC special graphics set translates exactly like the fixed VT100
+    table (0x60..0x7E to the line-drawing glyphs, everything else to itself) and never panics;
+    the ASCII set is the identity. -/
+theorem C04_gfx (c : Nat) :
+    Charset.translate .drawing c = some (gfxRef c) ∧ Charset.translate .ascii c = some c :=
+  ⟨translate_drawing c, rfl⟩
+
+/-! ### Print -/
+
+/-- **C04 (Print).**  Printing a character never panics and produces exactly the terminal
+    described by `printSpec`: glyph through the active character set, deferred wrap first (mark,
+    scroll on the bottom margin), last-column rule, insert vs. overwrite, cursor advance / park,
+    current pen, dirty row — and, because this is an equation between complete terminals,
+    nothing else changes. -/
+theorem C04_print (t : Terminal) (ch : Nat) (h : TInv t = true) :
+    t.execute (.print ch) = some (printSpec t ch) :=
+  print_spec t ch h
+
+/-- `printSpec` keeps the global invariant (so prints can be iterated) -/
+theorem C04_print_TInv (t : Terminal) (ch : Nat) (h : TInv t = true) : TInv (printSpec t ch) = true :=
+  printSpec_TInv t h ch
+
+/-! ### REP -/
+
+/-- **C04 (REP).**  `REP n` never panics and equals `max n 1` prints (each exactly as specified by
+    `printSpec`, "as if typed") of the character left of the cursor; at column 0 it is the identity. -/
+theorem C04_rep (t : Terminal) (n : Nat) (h : TInv t = true) :
+    t.execute (.rep n) = some (repSpec t n) := by
+  have p := Pre_of_TInv t h
+  show t.rep n = _
+  unfold Terminal.rep repSpec
+  by_cases h0 : t.cursor.col = 0
+  · have : ¬ t.cursor.col > 0 := by omega
+    simp only [if_neg this, if_pos h0]
+  · have hpos : t.cursor.col > 0 := by omega
+    have hrow : t.cursor.row < t.buffer.view.length := by rw [p.vlen]; exact p.row_lt
+    have hl : t.buffer.view[t.cursor.row]? = some t.buffer.view[t.cursor.row] :=
+      List.getElem?_eq_getElem hrow
+    have hlen := p.clen _ _ hl
+    have hcol : t.cursor.col - 1 < t.buffer.view[t.cursor.row].cells.length := by
+      have := p.col; omega
+    have hc : t.buffer.view[t.cursor.row].cells[t.cursor.col - 1]?
+        = some t.buffer.view[t.cursor.row].cells[t.cursor.col - 1] := List.getElem?_eq_getElem hcol
+    simp only [if_pos hpos, if_neg h0, hl, hc, charLeftOfCursor, asUsize_one]
+    exact printN_eq _ _ t h
+
+/-- the same statement with the iteration in the model's own terms: `REP n` is `max n 1`
+    executions of `Print c`, `c` the character left of the cursor -/
+theorem C04_rep_as_prints (t : Terminal) (n : Nat) (h : TInv t = true) (hc : t.cursor.col ≠ 0) :
+    t.execute (.rep n) = t.printN (charLeftOfCursor t) (max n 1) := by
+  rw [C04_rep t n h, printN_eq _ _ t h]
+  simp only [repSpec, if_neg hc]
+
+/-! ### Corollaries in the words of the property -/
+
+/-- **"no mode changes"**: every field other than buffer, cursor position, pending-wrap flag and
+    dirty lines is untouched by a print -/
+theorem C04_print_modes (t : Terminal) (ch : Nat) :
+    let t' := printSpec t ch
+    t'.cols = t.cols ∧ t'.rows = t.rows ∧ t'.otherBuffer = t.otherBuffer
+      ∧ t'.activeBufferType = t.activeBufferType ∧ t'.scrollbackLimit = t.scrollbackLimit
+      ∧ t'.pen = t.pen ∧ t'.charsets = t.charsets ∧ t'.activeCharset = t.activeCharset
+      ∧ t'.tabs = t.tabs ∧ t'.insertMode = t.insertMode ∧ t'.originMode = t.originMode
+      ∧ t'.autoWrapMode = t.autoWrapMode ∧ t'.newLineMode = t.newLineMode
+      ∧ t'.cursorKeysMode = t.cursorKeysMode ∧ t'.topMargin = t.topMargin
+      ∧ t'.bottomMargin = t.bottomMargin ∧ t'.savedCtx = t.savedCtx
+      ∧ t'.alternateSavedCtx = t.alternateSavedCtx ∧ t'.xtwinops = t.xtwinops
+      ∧ t'.cursor.visible = t.cursor.visible ∧ t'.buffer.cols = t.buffer.cols
+      ∧ t'.buffer.rows = t.buffer.rows ∧ t'.buffer.limit = t.buffer.limit := by
+  intro t'
+  simp only [t', printSpec, putStep, wrapStep]
+  repeat' split
+  all_goals simp [bufOnRow, scrollRegionUp1]
+
+/-- the column a print writes to: column 0 after a deferred wrap, else the cursor column, the last
+    column when the cursor is in the wrap-pending position -/
+def printedCol (t : Terminal) : Nat :=
+  if t.autoWrapMode && t.pendingWrap then 0 else min t.cursor.col (t.cols - 1)
+
+/-- **the printed cell carries the glyph and the current pen**, and it is in the row the cursor
+    ends up in, at `printedCol` -/
+theorem C04_cell_pen (t : Terminal) (ch : Nat) (h : TInv t = true) :
+    ∃ l, (printSpec t ch).buffer.view[(printSpec t ch).cursor.row]? = some l
+      ∧ l.cells[printedCol t]? = some ⟨glyph t ch, t.pen⟩ := by
+  unfold printSpec printedCol
+  split
+  · obtain ⟨l, h1, h2⟩ := putStep_cell (wrapStep t) (wrapStep_TInv t h) (glyph t ch)
+    rw [(wrapStep_col t).1, Nat.zero_min, wrapStep_pen] at h2
+    exact ⟨l, h1, h2⟩
+  · exact putStep_cell t h (glyph t ch)
+
+/-- **with auto-wrap off the cursor never leaves the last column**: a print in the last column
+    (or in the wrap-pending position left behind by an earlier auto-wrap mode) moves nothing … -/
+theorem C04_nowrap_stays (t : Terminal) (ch : Nat) (ha : t.autoWrapMode = false)
+    (hc : t.cursor.col + 1 ≥ t.cols) :
+    (printSpec t ch).cursor = t.cursor ∧ (printSpec t ch).pendingWrap = t.pendingWrap := by
+  rw [printSpec_nowrap t ch (nowrap_of_off t ha)]
+  simp only [putStep, if_pos hc, ha]
+  exact ⟨rfl, rfl⟩
+
+/-- … and a print left of the last column never reaches the wrap-pending position -/
+theorem C04_nowrap_lt (t : Terminal) (ch : Nat) (ha : t.autoWrapMode = false)
+    (hc : t.cursor.col < t.cols) : (printSpec t ch).cursor.col < t.cols := by
+  rw [printSpec_nowrap t ch (nowrap_of_off t ha)]
+  simp only [putStep, ha]
+  split
+  · exact hc
+  · show t.cursor.col + 1 < t.cols
+    omega
+
+/-- **insert mode drops the last cell**: left of the last column and with no wrap pending, the
+    cursor row becomes `take col r ++ [cell] ++ (drop col r).dropLast` (same length, wrap mark kept) -/
+theorem C04_insert_row (t : Terminal) (ch : Nat) (h : TInv t = true) (hi : t.insertMode = true)
+    (hw : (t.autoWrapMode && t.pendingWrap) = false) (hc : t.cursor.col + 1 < t.cols) :
+    ∃ l, t.buffer.view[t.cursor.row]? = some l
+      ∧ (printSpec t ch).buffer.view[t.cursor.row]?
+          = some { l with cells := l.cells.take t.cursor.col ++ [⟨glyph t ch, t.pen⟩]
+                                     ++ (l.cells.drop t.cursor.col).dropLast }
+      ∧ (printSpec t ch).cursor.col = t.cursor.col + 1 := by
+  have p := Pre_of_TInv t h
+  have hrow : t.cursor.row < t.buffer.view.length := by rw [p.vlen]; exact p.row_lt
+  have hl : t.buffer.view[t.cursor.row]? = some t.buffer.view[t.cursor.row] := List.getElem?_eq_getElem hrow
+  have hn : ¬ (t.cursor.col + 1 ≥ t.cols) := by omega
+  refine ⟨_, hl, ?_, ?_⟩
+  · rw [printSpec_nowrap t ch hw]
+    simp only [putStep, if_neg hn, hi, if_true, bufOnRow]
+    exact onRow_get_self _ _ _ _ hl
+  · rw [printSpec_nowrap t ch hw]
+    simp only [putStep, if_neg hn]
+
+/-- **nothing else changes** (no wrap pending): the scrollback, every other row, and every
+    wrap mark are as before -/
+theorem C04_print_frame (t : Terminal) (ch : Nat) (hw : (t.autoWrapMode && t.pendingWrap) = false) :
+    (printSpec t ch).buffer.sb = t.buffer.sb
+      ∧ (∀ i : Nat, i ≠ t.cursor.row → (printSpec t ch).buffer.view[i]? = t.buffer.view[i]?)
+      ∧ (∀ i : Nat, ((printSpec t ch).buffer.view[i]?).map Line.wrapped = (t.buffer.view[i]?).map Line.wrapped) := by
+  rw [printSpec_nowrap t ch hw]
+  simp only [putStep]
+  split
+  · split
+    all_goals
+      refine ⟨rfl, ?_, ?_⟩
+      · intro i hi
+        simp only [bufOnRow, getElem?_onRow, if_neg hi]
+      · intro i
+        simp only [bufOnRow, getElem?_onRow]
+        split
+        · cases t.buffer.view[i]? <;> rfl
+        · rfl
+  · refine ⟨rfl, ?_, ?_⟩
+    · intro i hi
+      simp only [bufOnRow, getElem?_onRow, if_neg hi]
+    · intro i
+      simp only [bufOnRow, getElem?_onRow]
+      split
+      · cases t.buffer.view[i]? with
+        | none => rfl
+        | some l => simp only [Option.map_some]; split <;> rfl
+      · rfl
+
+/-- **the wrap marks the row it leaves** (not on the bottom margin, not on the last row): the row
+    keeps its cells, gets the soft-wrap mark, and the character goes to column 0 of the next row -/
+theorem C04_wrap_marks_row (t : Terminal) (ch : Nat) (h : TInv t = true)
+    (hw : (t.autoWrapMode && t.pendingWrap) = true) (hr : t.cursor.row ≠ t.bottomMargin)
+    (h2 : t.cursor.row + 1 < t.rows) :
+    ∃ l, t.buffer.view[t.cursor.row]? = some l
+      ∧ (printSpec t ch).buffer.view[t.cursor.row]? = some { l with wrapped := true }
+      ∧ (printSpec t ch).cursor.row = t.cursor.row + 1 := by
+  have p := Pre_of_TInv t h
+  have hrow : t.cursor.row < t.buffer.view.length := by rw [p.vlen]; exact p.row_lt
+  obtain ⟨l, hl⟩ : ∃ l, t.buffer.view[t.cursor.row]? = some l := ⟨_, List.getElem?_eq_getElem hrow⟩
+  have hws : wrapStep t = { t with
+      cursor := { t.cursor with col := 0, row := t.cursor.row + 1 }, pendingWrap := false,
+      buffer := bufOnRow t.buffer t.cursor.row markWrapped } := by
+    simp only [wrapStep, if_neg hr, if_pos h2]
+  obtain ⟨_, f2, f3⟩ := putStep_frame (wrapStep t) (glyph t ch)
+  refine ⟨_, hl, ?_, ?_⟩
+  · rw [printSpec_wrap t ch hw, f3 t.cursor.row (by rw [hws]; show t.cursor.row ≠ t.cursor.row + 1; omega), hws]
+    exact onRow_get_self _ _ _ _ hl
+  · rw [printSpec_wrap t ch hw, f2, hws]
+
+/-- **wrapping on the bottom margin**: the cursor stays on the bottom margin row, and the row it
+    left — marked soft-wrapped — now sits one row higher, or, when the region is a single row
+    (1-row screen), at the end of the scrollback -/
+theorem C04_wrap_on_margin (t : Terminal) (ch : Nat) (h : TInv t = true)
+    (hw : (t.autoWrapMode && t.pendingWrap) = true) (hr : t.cursor.row = t.bottomMargin) :
+    ∃ l, t.buffer.view[t.cursor.row]? = some l
+      ∧ (printSpec t ch).cursor.row = t.bottomMargin
+      ∧ (if t.topMargin < t.bottomMargin
+          then (printSpec t ch).buffer.view[t.bottomMargin - 1]? = some { l with wrapped := true }
+          else (printSpec t ch).buffer.sb = t.buffer.sb ++ [{ l with wrapped := true }]) := by
+  have p := Pre_of_TInv t h
+  have hrow : t.cursor.row < t.buffer.view.length := by rw [p.vlen]; exact p.row_lt
+  obtain ⟨l, hl⟩ : ∃ l, t.buffer.view[t.cursor.row]? = some l := ⟨_, List.getElem?_eq_getElem hrow⟩
+  have hws : wrapStep t = { t with
+      cursor := { t.cursor with col := 0 }, pendingWrap := false,
+      buffer := scrollRegionUp1 (bufOnRow t.buffer t.cursor.row markWrapped) t.topMargin t.bottomMargin t.pen,
+      dirtyLines := dirtyRange t.dirtyLines t.topMargin t.bottomMargin } := by
+    simp only [wrapStep, if_pos hr]
+  obtain ⟨f1, f2, f3⟩ := putStep_frame (wrapStep t) (glyph t ch)
+  have hm := p.m3
+  have hvl := p.vlen
+  refine ⟨_, hl, ?_, ?_⟩
+  · rw [printSpec_wrap t ch hw, f2, hws]; exact hr
+  · split
+    · rename_i hlt
+      rw [printSpec_wrap t ch hw, f3 _ (by rw [hws]; show t.bottomMargin - 1 ≠ t.cursor.row; omega), hws]
+      simp only [scrollRegionUp1, bufOnRow]
+      rw [hr] at hl ⊢
+      list_ix
+      grind [markWrapped]
+    · rename_i hlt
+      have ht : t.topMargin = 0 := by omega
+      have hb : t.bottomMargin = 0 := by omega
+      rw [printSpec_wrap t ch hw, f1, hws]
+      simp only [scrollRegionUp1, bufOnRow, ht, if_true]
+      rw [hr, hb] at hl ⊢
+      congr 1
+      apply List.ext_getElem?
+      intro i
+      list_ix
+      grind [markWrapped]
+
+/-! ### The hypotheses are satisfiable: a concrete, non-trivial state -/
+
+def exPen : Pen := { fg := some (.indexed 1), intensity := .bold }
+
+/-- a 3×2 terminal with a scrollback limit: "xyz" on row 0 (soft-wrapped), "abc" on row 1 = bottom
+    margin, cursor parked in the wrap-pending position, insert mode on, G1 = drawing set shifted
+    in, bold red pen -/
+def exT : Terminal :=
+  { cols := 3, rows := 2,
+    buffer := { sb := [], view := [⟨[⟨0x78, {}⟩, ⟨0x79, {}⟩, ⟨0x7A, {}⟩], true⟩,
+                                   ⟨[⟨0x61, {}⟩, ⟨0x62, exPen⟩, ⟨0x63, exPen⟩], false⟩],
+                cols := 3, rows := 2, limit := some (Buffer.mkLimit 100), trimNeeded := false },
+    otherBuffer := Buffer.new 3 2 (some 0) none,
+    activeBufferType := .primary, scrollbackLimit := some 100,
+    cursor := { col := 3, row := 1 }, pen := exPen,
+    charsets := (.ascii, .drawing), activeCharset := 1, tabs := [],
+    insertMode := true, originMode := false, autoWrapMode := true, newLineMode := false,
+    cursorKeysMode := .normal, pendingWrap := true, topMargin := 0, bottomMargin := 1,
+    savedCtx := {}, alternateSavedCtx := {}, dirtyLines := [false, false], xtwinops := false }
+
+example : TInv exT = true := by decide
+
+/-- on `exT`, `Print 'q'` wraps on the bottom margin: "xyz" scrolls into the scrollback, "abc" moves
+    up with the soft-wrap mark, '─' (the drawing glyph of 'q') lands at column 0 of the fresh row in
+    the current pen, the cursor advances to column 1 -/
+example :
+    exT.execute (.print 0x71) = some (printSpec exT 0x71)
+      ∧ (printSpec exT 0x71).buffer.sb = [⟨[⟨0x78, {}⟩, ⟨0x79, {}⟩, ⟨0x7A, {}⟩], true⟩]
+      ∧ (printSpec exT 0x71).buffer.view
+          = [⟨[⟨0x61, {}⟩, ⟨0x62, exPen⟩, ⟨0x63, exPen⟩], true⟩,
+             ⟨[⟨0x2500, exPen⟩, ⟨0x20, exPen⟩, ⟨0x20, exPen⟩], false⟩]
+      ∧ (printSpec exT 0x71).cursor = { col := 1, row := 1 }
+      ∧ (printSpec exT 0x71).pendingWrap = false :=
+  ⟨C04_print exT 0x71 (by decide), by decide, by decide, by decide, by decide⟩
+
+/-- and `REP 2` on `exT` types 'c' (the last column's character) twice — through the drawing set,
+    so it shows as '␌' —, the second one inserted (insert mode) behind the first -/
+example :
+    exT.execute (.rep 2) = some (repSpec exT 2)
+      ∧ (repSpec exT 2).buffer.view
+          = [⟨[⟨0x61, {}⟩, ⟨0x62, exPen⟩, ⟨0x63, exPen⟩], true⟩,
+             ⟨[⟨0x240C, exPen⟩, ⟨0x240C, exPen⟩, ⟨0x20, exPen⟩], false⟩]
+      ∧ (repSpec exT 2).cursor.col = 2 :=
+  ⟨C04_rep exT 2 (by decide), by decide, by decide⟩
+
+end Avt.Props.C04
